@@ -1621,3 +1621,11 @@ def nontrivial(case, out):
 def matches_known(k, v):
     # DESIGN §8-p was repaired (`fix:` commit, see known_findings.d/C20.json): nothing is tolerated.
     return False
+
+# ---------------------------------------------------------------- real nodes through the public API (engine: extra_cases)
+# `Litep2p::new` (src/lib.rs), `ConfigBuilder` (src/config.rs) and the protocol / transport `Config` builders hand every
+# constructed object its configuration; the `node` area (checks/node.py) builds real nodes, compares what the CONSTRUCTED
+# objects hold (and what a connection's `ProtocolSet` answers per main / fallback name) with the wiring model
+# (Model/Node/Wiring.lean).
+from . import node as _node  # noqa: E402
+_node.install(globals())
